@@ -31,6 +31,9 @@ Apply(st, op) ==
                                         ELSE [st |-> st, res |-> 0]                    \* nil
     [] op.t = "setifxx" -> IF st[k] # 0 THEN [st |-> [st EXCEPT ![k] = v], res |-> -1]   \* SET k v XX
                                         ELSE [st |-> st, res |-> 0]
+    [] op.t = "get"     -> [st |-> st, res |-> st[k]]          \* reads served by the leader: GET, HGET, LLEN
+    [] op.t = "hget"    -> [st |-> st, res |-> st[k]]
+    [] op.t = "llen"    -> [st |-> st, res |-> Len(st.l1)]
     [] op.t = "pfadd"   -> [st |-> [st EXCEPT !.p1 = @ \cup {v}], res |-> 1]
        \* (the 0 / 1 answer of PFADD is not part of the contract checked here: the drivers record
        \* any integer answer as 1.  Observed: after a restart the first PFADD of an element that is
